@@ -74,7 +74,7 @@ func genC19(g *Gen, tier string, idx int) *wire.Scenario {
 				}
 				b.Macro = string(body)
 			} else {
-				b.Func = Pick(g, []string{"beginning-of-line", "end-of-line", "kill-line", "undo", "forward-word"})
+				b.Func = Pick(g, []string{"beginning-of-line", "end-of-line", "kill-line", "undo", "forward-word", "Kill-Line", "UNDO", "Transpose-Chars", "no-such-function"})
 			}
 			x.Binds = append(x.Binds, b)
 		}
@@ -353,10 +353,37 @@ func execC19(x *Ctx, sc *wire.Scenario) *wire.Result {
 		}
 	case "dump-functions", "dump-macros":
 		wantMacro := xx.Kind == "dump-macros"
+		// names the generator binds keys to although no function is registered under them (other letter case, unknown)
+		notAFunction := map[string]bool{"Kill-Line": true, "UNDO": true, "Transpose-Chars": true, "no-such-function": true}
+		// the other direction first: a function bind that the dump prints is a bind the configuration holds
+		// (judged before the comparison below, whose listed findings stop it at the first bind that does not survive)
+		if !wantMacro {
+			liveAll := live.Binds["emacs"]
+			for _, gs := range sortedKeys(cfg.Binds["emacs"]) {
+				gb := cfg.Binds["emacs"][gs]
+				if gb.Macro || gb.Action == "" {
+					continue
+				}
+				held := true
+				for _, ls := range sortedKeys(liveAll) {
+					// the key as the configuration has it (a sequence whose notation does not survive is the other rule's business)
+					if lb := liveAll[ls]; ls == gs || ConvertMeta(ls) == ConvertMeta(gs) {
+						held = !lb.Macro && lb.Action == gb.Action
+						if held {
+							break
+						}
+					}
+				}
+				if !held {
+					return violation(res, "MISMATCH", "C19.dumped-binds-round-trip", "dump-functions:prints-a-function-the-key-is-not-bound-to",
+						fmt.Sprintf("dump-functions printed %q: %s, but in the live emacs keymap that key is bound to %+v", inputrc.Escape(gs), gb.Action, liveAll[gs]))
+				}
+			}
+		}
 		liveB := map[string]inputrc.Bind{}
 		for seq, b := range live.Binds["emacs"] {
-			if b.Macro == wantMacro && (wantMacro || b.Action != "") {
-				liveB[seq] = b
+			if b.Macro == wantMacro && (wantMacro || (b.Action != "" && !notAFunction[b.Action])) {
+				liveB[seq] = b // (a key bound to a name that is no function is not a function bind: the dump does not print it)
 			}
 		}
 		gotB := cfg.Binds["emacs"]
